@@ -20,20 +20,20 @@ P = {
          "Word values, their bit-to-coordinate placement (quick: 168 (version, level, mask) cells; thorough: 1280) and value provenance of the reported fields are exact."),
  "C05": ("proof", "DESIGN.md 3/C05 + 7", "decision-tree extraction of Version::get over all usize + " + PE + " of QRCode::new into an outcome table (24 600 cells around every capacity threshold x forced versions x given/defaulted mode and level) + compile witness",
          "Exact for all lengths x 12 (mode, level) and forced versions, relative to the encoders emitting the bit counts the capacity formula assumes (widths decided by C06 rules)."),
- "C06": ("other", "DESIGN.md 3/C06", "table folding + call-site constant extraction + polynomial normal form of pushed values + stage-order dominance",
-         "Constants, widths, value formulas and stage order are exact where the code keeps the recognised shapes (otherwise the rule abstains); push_bits shift arithmetic is not decided."),
+ "C06": ("other", "DESIGN.md 3/C06", PE + " of push_bits/push_u8 on symbolic words (bit-vector domain) and of encode() with a symbolic payload (affine value expressions with ranges): data codewords = ISO 7.4 stream bit for bit + table folding of count widths and value tables",
+         "Exact for the stated (mode, version, level, length) cells (quick 252, thorough ~5 000) and all payload contents in the mode's alphabet; lengths between the sampled residues/boundaries follow from the uniform loop body, which is not separately proved."),
  "C07": ("other", "DESIGN.md 3/C07", "GF(256) table and generator recomputation from the definition + buffer obligations over 160 cells + skip-set of the division step over all 256 byte values + one-step polynomial algebra + exact placement of the remainder in the codeword sequence (C02.R4)",
          "Tables, generators, the step and its zero-skip exact; that iterating the step yields the remainder for every content is not decided."),
  "C08": ("other", "DESIGN.md 3/C08 + 7", PE + " of the eight sweeps on symbolic module values (toggled set = ISO Table 10 at every coordinate, value-independent by construction; quick V01-V10, thorough all 40) + edge-dominance guard rule + single-source rule for the mask",
          "Exact toggle sets and untouched function modules for every payload; the mask applied is the mask recorded."),
- "C09": ("other", "DESIGN.md 3/C09", "exhaustive folding of classifier and value tables over 256 bytes + origin analysis of the mode + loop-exit shape of the two-stage scan",
-         "Classifier and its agreement with the encoder exact for all byte values; the scan loops only as far as the rules name."),
+ "C09": ("other", "DESIGN.md 3/C09", "exhaustive folding of classifier and value tables over 256 bytes + " + PE + " of best_encoding over every class pattern up to length 7/8 + origin analysis of the mode",
+         "Classifier and its agreement with the encoder exact for all byte values; the scan exact for all class patterns of short inputs (the property's own quantifier); long inputs follow from the uniform loop."),
  "C10": ("other", "DESIGN.md 3/C10", "capacity decision tree + QRCode::new outcome table + buffer-size obligations + accounted panic sites + panic-freedom of the configuration-determined code by " + PE + " + compile witness",
          "Decides the anchored mechanisms (gate, buffers, error type) and that drawing, masking, placement, interleaving and format writing cannot panic for any of the configurations; value-range proofs of the remaining compiler-inserted asserts are declined."),
  "C11": ("other", "DESIGN.md 3/C11", "data-dependence slices, control-dependence (edge dominance), reaching definitions across the loop back edge (candidate freshness) and origin analysis over the selection loop + scorer constants",
          "Reports the known finding D1 (column penalties computed on an unmasked copy); scorers' arithmetic only as far as the rules name."),
- "C12": ("other", "DESIGN.md 3/C12", "forward taint with decision-table-recognised sanitiser + format-template decoding + dominance/must-pass-through/polynomial rules",
-         "RGBA colours and the image string; free-form colour strings are outside the property; usvg/XML parsers are not run."),
+ "C12": ("other", "DESIGN.md 3/C12", "forward taint with decision-table-recognised sanitiser + format-template decoding + " + PE + " of SvgBuilder::to_str with symbolic module values (one sub-path slot per module, taken iff dark, anchored in the cell, per layer) + dominance/must-pass-through rules",
+         "Exact for every matrix content on 40 (version, margin, layer program) configurations (160 thorough); RGBA colours and the image string; free-form colour strings are outside the property; XML parsers are not run."),
  "C13": ("other", "DESIGN.md 3/C13", "sibling-agreement rule over 11 forwarding methods + decision-table folding of the FitTo match + origin analysis + the SVG skeleton rules of C12",
          "Option plumbing and the rasterised document's skeleton only: pixel values come from resvg/tiny-skia whose bodies are not local MIR."),
  "C14": ("proof", "DESIGN.md 3/C14", "crate-wide fact enumeration (statics, unsafe, type graph, signatures, call-graph deny-list, setter effects) + Send/Sync and borrow witnesses",
@@ -83,7 +83,7 @@ def main():
         "engines": [
             {"name": "fqr-facts", "path": "driver/", "serves_properties": sorted(P), "kind_free_text": "rustc_private driver: dumps resolved MIR, evaluated constants, ADTs, statics, impls, user-written unsafe as JSON per configuration"},
             {"name": "fqrlint", "path": "fqrlint/", "serves_properties": sorted(P), "kind_free_text": "Python rule engine over the facts: CFG/dominators/edge-dominance, reaching definitions, origins, canonical expressions, polynomial normal form, forward taint, finite-domain folding, decision-tree extraction"},
-            {"name": "peval", "path": "fqrlint/peval.py", "serves_properties": ["C01", "C02", "C03", "C04", "C05", "C07", "C08", "C10", "C15", "C16", "C18"], "kind_free_text": "partial evaluator over MIR for configuration-determined code: constant propagation with loops unrolled, heap arrays, iterator/Option/Result/String models, closures, symbolic payload bits and bytes, symbolic-branch merging at post-dominators; a branch on anything unknown aborts (abstention)"},
+            {"name": "peval", "path": "fqrlint/peval.py", "serves_properties": ["C01", "C02", "C03", "C04", "C05", "C06", "C07", "C08", "C09", "C10", "C12", "C15", "C16", "C18"], "kind_free_text": "partial evaluator over MIR for configuration-determined code: constant propagation with loops unrolled, heap arrays, iterator/Option/Result/String models, closures, symbolic payload bits and bytes, symbolic-branch merging at post-dominators; a branch on anything unknown aborts (abstention)"},
             {"name": "witness", "path": "witness/", "serves_properties": ["C04", "C05", "C10", "C14", "C15", "C19"], "kind_free_text": "compile-pass witnesses and compile_fail doctests with compiling twins against the public API"},
             {"name": "fixture", "path": "fixture/", "serves_properties": ["C14", "C17"], "kind_free_text": "positive fixture crate on which the zero-count rules must fire on every run"},
         ],
